@@ -279,9 +279,19 @@ class HttpParser:
                 raw = memoryview(b'')
             # Mark request as complete if headers received and no incoming
             # body indication received.
+            #
+            # A request without content-length or transfer-encoding has no
+            # body, and so has any message with an explicit zero content-length.
+            # Bytes following such a message belong to the next one and are
+            # left in the buffer.  Only responses with no framing at all are
+            # delimited by connection close and consume what follows as body.
             elif self.state == httpParserStates.HEADERS_COMPLETE and \
                     not (self._content_expected or self._is_chunked_encoded) and \
-                    raw == b'':
+                    (
+                        raw == b'' or
+                        self.type == httpParserTypes.REQUEST_PARSER or
+                        self.has_header(b'content-length')
+                    ):
                 self.state = httpParserStates.COMPLETE
         self.buffer = None if raw == b'' else raw
 
